@@ -189,6 +189,7 @@ type Exec struct {
 	recovering []*frame
 	nchan      int
 	nopaque    int
+	inQuiesce  bool
 	clockLast  *Int
 	ufDecl     map[string]bool
 	ntpdef     int
@@ -827,7 +828,15 @@ func fmtVal(v value) string {
 	case iface:
 		return fmtVal(v.v)
 	case SStr:
-		return "<symbolic string>"
+		b := make([]byte, 0, len(v.B))
+		for _, x := range v.B {
+			if x.X == nil && x.isConc() {
+				b = append(b, byte(x.C))
+			} else {
+				b = append(b, '?')
+			}
+		}
+		return string(b) + " <partly symbolic>"
 	case *value:
 		if v == nil {
 			return "<nil>"
